@@ -118,6 +118,40 @@ def rule_deq(ctx, rep):
                 # returned a node with a successor: head->next must be advanced
                 rep.check(any(i in hs for i in insts), "C10.deq", tag + ".advance-head", "returning a non-last node advances head->next", "node returned without advancing head->next", [f.blocks[p[-1]].insts[-1].where()])
         pat.require(n >= 1, "dequeue: no WOULDBLOCK-after-clear path found")
+        # which way each decision goes: NULL exactly when the emptiness test said empty; WOULDBLOCK exactly when a wait for a successor said
+        # WOULDBLOCK in non-blocking mode; a node otherwise
+        def _is_empty_call(x):
+            return x[0] == "call" and m.fn(x[1]) is not None and m.fn(x[1]).srcname == "_cds_wfcq_empty"
+        def _is_sync(x):
+            return x[0] == "call" and m.fn(x[1]) is not None and m.fn(x[1]).srcname == "___cds_wfcq_node_sync_next"
+        def _expand(atoms):
+            out = []
+            for a in atoms:
+                if len(a) == 3 and a[0] == "ne" and a[2] == ("c", 0) and a[1][0] in ("select", "bin", "icmp"):
+                    lv = []
+                    pat.leaf_atoms(("icmp", "ne", a[1], ("c", 0)), True, lv)
+                    out += lv or [a]
+                else:
+                    out.append(a)
+            return out
+        for p, atoms, v in paths.ret_cases(f):
+            atoms = _expand(atoms)
+            site = [f.blocks[p[-1]].insts[-1].where()]
+            emp_t = any(a[0] == "ne" and a[2] == ("c", 0) and _is_empty_call(a[1]) for a in atoms)
+            emp_f = any(a[0] == "eq" and a[2] == ("c", 0) and _is_empty_call(a[1]) for a in atoms)
+            if not (emp_t or emp_f):
+                continue        # emptiness test inlined / merged: not comparable here (C10.empty decides its atoms)
+            if v == ("c", 0):
+                rep.check(emp_t, "C10.deq", tag + ".null-iff-empty", "NULL is returned only when the emptiness test held", "NULL is returned on the path where the queue was found non-empty (and the dequeue goes on when it is empty)", site)
+            elif v == ("c", WOULDBLOCK):
+                wb = any(a[0] == "eq" and a[2] == ("c", WOULDBLOCK) and _is_sync(a[1]) for a in atoms)
+                nb = any(a[0] == "eq" and a[1] == ("arg", 3) and a[2] == ("c", 0) for a in atoms) or not any(a[1] == ("arg", 3) for a in atoms if len(a) == 3)
+                rep.check(wb and emp_f, "C10.deq", tag + ".wouldblock-iff-sync-wouldblock", "WOULDBLOCK is returned only after a wait for a successor reported WOULDBLOCK",
+                          "WOULDBLOCK is returned on a path where the successor wait did *not* report it: a dequeue that had the node in hand reports failure (and one that has to wait goes on with -1 as a node)", site)
+            elif v is not None:
+                rep.check(emp_f, "C10.deq", tag + ".node-only-if-nonempty", "a node is returned only after the queue was found non-empty", "a node is returned although the queue was found empty", site)
+                bad_wb = [a for a in atoms if a[0] == "eq" and a[2] == ("c", WOULDBLOCK) and _is_sync(a[1]) and any(b[0] == "eq" and b[1] == ("arg", 3) and b[2] == ("c", 0) for b in atoms)]
+                rep.check(not bad_wb, "C10.deq", tag + ".no-node-after-wouldblock", "no node is returned after a non-blocking wait reported WOULDBLOCK", "after a non-blocking wait reported WOULDBLOCK the dequeue continues and returns / dereferences the sentinel", site)
 
 
 def rule_splice(ctx, rep):
